@@ -10,6 +10,8 @@
   no default-ignorable glyphs; ligature lookups carry no ignore flags; lookups nested in contextual
   lookups are single / alternate / multiple-with-at-least-one-glyph substitutions (each acts at one
   position and may only grow the string; later sequence indices shift by the growth).
+  Feature ranges: a lookup acts at a position only if its feature is on for the glyph there, and every glyph of its
+  input sequence must have the feature on as well (see `matchSeq`).
 -/
 import RbModel.Gsub
 
@@ -35,12 +37,18 @@ def visibleFrom (f : Font) (props : Nat) (gs : List G) (start : Nat) : List Nat 
 def visibleBefore (f : Font) (props : Nat) (gs : List G) (i : Nat) : List Nat :=
   ((List.range i).filter (fun j => match gs[j]? with | some g => !ignored f props g | none => false)).reverse
 
-/-- does the sequence of visible glyphs at `positions` satisfy the predicates `preds` one by one? -/
-def matchSeq (gs : List G) (positions : List Nat) (preds : List (Nat → Bool)) : Option (List Nat) :=
+/-- does the sequence of visible glyphs at `positions` satisfy the predicates `preds` one by one?
+    `inputMask = some m`: the glyphs are the lookup's INPUT sequence and each of them must have the lookup's feature on
+    (`mask & m ≠ 0`).  The OpenType text leaves open what happens when a feature's range ends inside a would-be match;
+    this model takes the reading of the implementations: no match (the disabled glyph is not skipped either).
+    Backtrack and lookahead glyphs are context only and need not carry the feature (`none`). -/
+def matchSeq (gs : List G) (positions : List Nat) (preds : List (Nat → Bool)) (inputMask : Option Nat := none) :
+    Option (List Nat) :=
   if positions.length < preds.length then none
   else
     let ps := positions.take preds.length
-    if (ps.zip preds).all (fun (p, pr) => match gs[p]? with | some g => pr g.gid | none => false) then some ps else none
+    let on (g : G) : Bool := match inputMask with | some m => g.mask &&& m != 0 | none => true
+    if (ps.zip preds).all (fun (p, pr) => match gs[p]? with | some g => pr g.gid && on g | none => false) then some ps else none
 
 /-- all glyphs whose cluster occurs in the closed index range [i, j] get the smallest of those clusters
     (cluster levels 0 and 1: clusters are merged as whole groups) -/
@@ -122,7 +130,7 @@ def applySubtableAt (f : Font) (level : Nat) (props lookupMask : Nat) (st : Subt
     let after := (visibleFrom f props gs (i + 1))
     let before := visibleBefore f props gs i
     let ctxRule (input : List (Nat → Bool)) (back ahead : List (Nat → Bool)) (recs : List Rec) : Step := do
-      let ins ← matchSeq gs after input
+      let ins ← matchSeq gs after input (some lookupMask)
       let lastIn := (ins.getLast?).getD i
       let afterIn := visibleFrom f props gs (lastIn + 1)
       let _ ← matchSeq gs afterIn ahead
@@ -137,7 +145,7 @@ def applySubtableAt (f : Font) (level : Nat) (props lookupMask : Nat) (st : Subt
         let rec first : List (List Nat × Nat) → Step
           | [] => none
           | (comps, lig) :: rest =>
-            match matchSeq gs after (comps.map fun c => fun x => x == c) with
+            match matchSeq gs after (comps.map fun c => fun x => x == c) (some lookupMask) with
             | some ins =>
               let lastIn := (ins.getLast?).getD i
               let gs1 := mergeClusters level gs i lastIn
